@@ -449,6 +449,54 @@ let handle_spend (c : case) (s : spend) =
       inc "false_reject";
       Printf.printf "BAD false-reject cause=%s verdict=%s %s\n" cause s.verdict (describe c s)
   end;
+  if impl_ok && not oracle_ok then begin
+    inc "false_accept";
+    (* classification: the smallest counterfactual under which the specification accepts *)
+    let itab = s.sigok @ s.isigx in
+    let try_ (fs, fv, fg) =
+      let seq = if fs && s.seq = 0xffffffff then 0xfffffffe else s.seq in
+      let txv = if fv && s.txv < 2 then 2 else s.txv in
+      let tab = if fg then itab else s.sigok in
+      verify_spend_ext (mk_env c s ~seq ~txv tab) commit c.spk s.ssig s.wit in
+    let combos = [ ((true, false, false), "after-final-sequence");
+                   ((false, true, false), "older-tx-version-1");
+                   ((false, false, true), "sig-parse-laxity");
+                   ((true, true, false), "after-final-sequence+older-tx-version-1");
+                   ((true, false, true), "after-final-sequence+sig-parse-laxity");
+                   ((false, true, true), "older-tx-version-1+sig-parse-laxity");
+                   ((true, true, true), "after-final-sequence+older-tx-version-1+sig-parse-laxity") ] in
+    let applicable (fs, fv, fg) =
+      (not fs || s.seq = 0xffffffff) && (not fv || s.txv < 2) && (not fg || s.isigx <> []) in
+    let cause =
+      match List.find_opt (fun (f, _) -> applicable f && try_ f) combos with
+      | Some (_, name) -> name
+      | None ->
+        let k = mk_class s.mk in
+        let contains (sub : string) (str : string) =
+          let n = String.length sub and m = String.length str in
+          let rec go i = i + n <= m && (String.sub str i n = sub || go (i + 1)) in go 0 in
+        let script_is_01 = (match inner c s with Some (_, sc, _) -> sc = [byte_tab.(1)] | None -> false) in
+        (* scriptSig shape (BIP141): the specification accepts once the scriptSig is reduced to the single
+           redeem-script push (nested segwit) resp. emptied (native segwit, taproot) *)
+        let ssig_fixed =
+          match c.kind with
+          | "shwsh" | "shwpkh" ->
+            (match ssig_stack s with
+             | Some (rb :: _ :: _) -> Some (serialize [IPush rb])
+             | _ -> None)
+          | "wsh" | "wpkh" | "tr" | "trkey" -> if s.ssig <> [] then Some [] else None
+          | _ -> None in
+        let ssig_cause =
+          match ssig_fixed with
+          | Some fixed when verify_spend_ext (mk_env c s s.sigok) commit c.spk fixed s.wit ->
+            Some (if fixed = [] then "native-segwit-scriptsig-nonempty" else "nested-segwit-scriptsig-extra-push")
+          | _ -> None in
+        if ssig_cause <> None then (match ssig_cause with Some x -> x | None -> "")
+        else if script_is_01 then "script-elem-01-as-op1"
+        else if contains "noncanon" s.mk then "noncanonical-script-reencoded"
+        else "unexplained:" ^ c.kind ^ ":" ^ k in
+    Printf.printf "BAD false-accept cause=%s %s cons=%s\n" cause (describe c s) (String.concat "," s.cons)
+  end;
   (* (2) completeness *)
   if s.base = "lib" && c.sane then begin
     inc "lib_sane";
